@@ -394,7 +394,8 @@ def extra_units():
     once, earlier records of the cell preserved" for this property"""
     from contracts import c19, c02
     from pyvc.units import share
+    # (c02.extra_units brings the phred codec: a quality character the encoder cannot handle would lose the pair)
     # ... and the loader's assumption about the selected strategy (one record per mate, both mates carrying the same cell
     # and strategy tags, so that per-cell files of the two mates stay synchronised) is C02's contract of every registered
     # strategy, re-verified under this property
-    return [share(c19.write, PROP), share(c19.prune, PROP), share(c19.close, PROP)] + [share(u, PROP) for u in c02.UNITS]
+    return [share(c19.write, PROP), share(c19.prune, PROP), share(c19.close, PROP)] + [share(u, PROP) for u in c02.UNITS + c02.extra_units()]
